@@ -153,7 +153,7 @@ pub fn run(ctx: &Ctx, rep: &mut Report) {
             } else {
                 // word-valued arguments with blanks so that quoting matters
                 match r.below(6) {
-                    0 => t(Test::Name(r.pick(&["a b", "x", "it's", "say \"hi\"", "*.c", "tab\there", "a\\\\b", "a\\b", "x\\", "\\n", "\\\\", "$HOME", "`x`", "a\\ b", "\\'", "\\\"", "a\u{a0}b", "a\u{3000}b", "x\u{2028}", "\u{b}v", "f\u{c}f", "n\u{85}l", "t\u{2009}s", "z\u{200b}w", "\u{feff}bom", "e\u{301}"]).to_string())),
+                    0 => t(Test::Name(r.pick(&["a b", "x", "it's", "say \"hi\"", "*.c", "tab\there", "a\\\\b", "a\\b", "x\\", "\\n", "\\\\", "$HOME", "`x`", "a\\ b", "\\'", "\\\"", "-print", "-true", "-o", "-name", "!", ",", "-depth", "-a", "a\u{a0}b", "a\u{3000}b", "x\u{2028}", "\u{b}v", "f\u{c}f", "n\u{85}l", "t\u{2009}s", "z\u{200b}w", "\u{feff}bom", "e\u{301}"]).to_string())),
                     1 => t(Test::Pool(r.pick(&["fast", "p 1"]).to_string())),
                     _ => t(gen_test_kind(r.usize(SUPPORTED_TESTS), r)),
                 }
